@@ -214,24 +214,40 @@ class FsIntrinsics(Intrinsics):
             if isinstance(f.value, ast.Name) and f.value.id in ('os', 'shutil', 'tempfile',
                                                                 'gzip'):
                 name = f.attr
+            elif (isinstance(f.value, ast.Attribute) and isinstance(f.value.value, ast.Name)
+                  and f.value.value.id == 'os' and f.value.attr == 'path' and f.attr == 'isdir'):
+                return {'obs_dir'}
         elif isinstance(f, ast.Name):
             name = f.id
         if name == 'mkdtemp':
             return {'fs_kind', 'eff', 'fs_epoch', 'mkdtemp_at', 'vstate'}
-        if name in ('mkdir', 'rmdir', 'remove', 'rename', 'replace', 'makedirs', 'rmtree'):
+        if name in ('rename', 'replace', 'makedirs'):
+            return {'fs_kind', 'eff', 'fs_epoch', 'vstate', 'mv_done', 'os_failed'}
+        if name == 'mkdir':
+            return {'fs_kind', 'eff', 'fs_epoch', 'vstate'}
+        if name == 'rmdir':
+            return {'fs_kind', 'eff', 'fs_epoch', 'rm_attempts', 'vstate', 'os_failed', 'ne_wit'}
+        if name in ('remove', 'rmtree'):
             return {'fs_kind', 'eff', 'fs_epoch', 'rm_attempts', 'vstate'}
         if name in ('open',) and isinstance(f, ast.Attribute):
-            return {'fs_kind', 'eff', 'fs_epoch', 'vstate'}
+            return {'fs_kind', 'eff', 'fs_epoch', 'vstate', 'wopen_attempts'}
         return set()
 
-    def may_fail(self, eng, st, node, classes=('OtherOSError',)):
-        """non-deterministic failure without effect"""
+    def may_fail(self, eng, st, node, classes=('OtherOSError',), at=()):
+        """non-deterministic failure without effect; `at`: paths on which the primitive failed
+        (scratch ghost os_failed, read by "unless the OS refused" clauses)"""
         outs = []
         for c in classes:
             s1 = st.fork()
             s1.trace.append('fail%d:%s' % (node.lineno, c))
+            self.mark(eng, s1, 'os_failed', at)
             outs.append((s1, Raise(new_exc(c, 'os'))))
         return outs
+
+    def mark(self, eng, st, ghost, paths):
+        if ghost in eng.GHOST_SORTS:
+            for p in paths:
+                eng.gwrite(st, ghost, z3.Store(eng.gread(st, ghost), p, True))
 
     def kind(self, eng, st):
         return eng.gread(st, 'fs_kind')
@@ -250,7 +266,12 @@ class FsIntrinsics(Intrinsics):
         return [(st, Sym(self.kind(eng, st)[lift(pos[0])] == K_FILE, BOOL))]
 
     def i_os_path_isdir(self, eng, st, f, pos, kws, node):
-        return [(st, Sym(self.kind(eng, st)[lift(pos[0])] == K_DIR, BOOL))]
+        isd = self.kind(eng, st)[lift(pos[0])] == K_DIR
+        if 'obs_dir' in eng.GHOST_SORTS:
+            # scratch log of observations: "isdir(p) answered True at some point"
+            obs = eng.gread(st, 'obs_dir')
+            eng.gwrite(st, 'obs_dir', z3.If(isd, z3.Store(obs, lift(pos[0]), True), obs))
+        return [(st, Sym(isd, BOOL))]
 
     def i_os_path_exists(self, eng, st, f, pos, kws, node):
         return [(st, Sym(self.kind(eng, st)[lift(pos[0])] != K_ABSENT, BOOL))]
@@ -340,22 +361,33 @@ class FsIntrinsics(Intrinsics):
         eng.gwrite(s1, 'fs_kind', z3.Store(kind, p, K_ABSENT))
         s1.trace.append('rmdir%d:ok' % node.lineno)
         outs.append((s1, None))
-        # any failure: not a directory, missing, not empty, permission ...: some OSError, no effect
+        # failures, no effect: missing, not a directory, not empty (determined by the state), or
+        # any other OSError (permission, busy, ...: injected, logged in the scratch ghost os_failed)
         for c in ('FileNotFoundError', 'NotADirectoryError', 'OtherOSError'):
             s2 = st.fork()
             if c == 'FileNotFoundError':
                 s2.assume(kind[p] == K_ABSENT)
             elif c == 'NotADirectoryError':
                 s2.assume(kind[p] == K_FILE)
+            else:
+                # ENOTEMPTY: some child exists; the witness is logged (scratch ghost ne_wit) so
+                # that "still not empty" can be stated without an existential
+                w = fresh('child_of', StrS)
+                s2.assume(z3.And(kind[p] == K_DIR, dirname(w) == p, w != p, kind[w] != K_ABSENT))
+                if 'ne_wit' in eng.GHOST_SORTS:
+                    eng.gwrite(s2, 'ne_wit', z3.Store(eng.gread(s2, 'ne_wit'), p, w))
             if eng.feasible(s2):
                 s2.trace.append('rmdir%d:%s' % (node.lineno, c))
                 outs.append((s2, Raise(new_exc(c, 'os'))))
+        outs.extend(self.may_fail(eng, st, node, at=[p]))
         return outs
 
     def i_os_remove(self, eng, st, f, pos, kws, node):
         E = _effect()
         p = self.path(eng, st, pos[0], node)
         self.effect(eng, st, E.Remove(p), 'remove', [p], node)
+        # ghost: a removal (os.remove here, os.rmdir below) has been attempted on this path
+        eng.gwrite(st, 'rm_attempts', z3.Store(eng.gread(st, 'rm_attempts'), p, True))
         kind = self.kind(eng, st)
         outs = []
         s1 = st.fork()
@@ -387,13 +419,15 @@ class FsIntrinsics(Intrinsics):
             eng.gwrite(s1, 'fs_kind', z3.Store(z3.Store(kind, b, kind[a]), a, K_ABSENT))
             eng.gwrite(s1, 'fs_epoch', eng.gread(s1, 'fs_epoch'))
             s1.trace.append('%s%d:ok' % (prim, node.lineno))
+            self.mark(eng, s1, 'mv_done', [b])
             outs.append((s1, None))
         s2 = st.fork()
         s2.assume(kind[a] == K_ABSENT)
         if eng.feasible(s2):
             s2.trace.append('%s%d:missing' % (prim, node.lineno))
+            self.mark(eng, s2, 'os_failed', [b])
             outs.append((s2, Raise(new_exc('FileNotFoundError', 'os'))))
-        outs.extend(self.may_fail(eng, st, node))
+        outs.extend(self.may_fail(eng, st, node, at=[b]))
         return outs
 
     def i_os_rename(self, eng, st, f, pos, kws, node):
@@ -418,7 +452,7 @@ class FsIntrinsics(Intrinsics):
         s1.trace.append('makedirs%d:ok' % node.lineno)
         outs.append((s1, None))
         outs.extend(self.may_fail(eng, st, node, ('OtherOSError', 'NotADirectoryError',
-                                                  'FileExistsError')))
+                                                  'FileExistsError'), at=[p]))
         return outs
 
     def i_os_listdir(self, eng, st, f, pos, kws, node):
@@ -549,6 +583,9 @@ class FsIntrinsics(Intrinsics):
         if 'w' in mode or 'a' in mode or 'x' in mode:
             E = _effect()
             self.effect(eng, st, E.WriteOpen(p), 'write_open', [p], node)
+            if 'wopen_attempts' in eng.GHOST_SORTS:
+                eng.gwrite(st, 'wopen_attempts',
+                           z3.Store(eng.gread(st, 'wopen_attempts'), p, True))
             kind = self.kind(eng, st)
             outs = []
             # the file is created (or truncated) as soon as the open succeeds
@@ -687,6 +724,11 @@ class FsIntrinsics(Intrinsics):
             i, j = z3.Consts('qi!s qj!s', IntS)
             st.assume(z3.ForAll([x], z3.Contains(out, z3.Unit(x)) == z3.Contains(v.t, z3.Unit(x))))
             st.assume(z3.Length(out) == z3.Length(v.t))
+            # membership as an index (Skolem function), for invariants stated over positions
+            idx = z3.Function('idx_in!%d' % node.lineno, out.sort(), StrS, IntS)
+            st.assume(z3.ForAll([x], z3.Implies(
+                z3.Contains(out, z3.Unit(x)),
+                z3.And(idx(out, x) >= 0, idx(out, x) < z3.Length(out), out[idx(out, x)] == x))))
             if key is None:
                 st.assume(z3.ForAll([i, j], z3.Implies(z3.And(0 <= i, i < j, j < z3.Length(out)),
                                                        z3.Or(str_lt(out[i], out[j]),
@@ -695,6 +737,8 @@ class FsIntrinsics(Intrinsics):
                 sign = self.len_key_sign(key.node)
                 if sign is None:
                     raise Unsupported('sorted key')
+                from .lib import SEQ_ORDER
+                SEQ_ORDER[out.get_id()] = (out, sign)
                 if sign < 0:
                     st.assume(z3.ForAll([i, j], z3.Implies(
                         z3.And(0 <= i, i < j, j < z3.Length(out)),
